@@ -825,7 +825,7 @@ def _variants(fn):
     reports 'confirmed' with the first input on which the real code departs from the documented behaviour."""
     def wrapper(model, info, art):
         first = None
-        for m in (model, {}, _ALT, {**_ALT, "$pad": "1"}):
+        for m in (model, {}, _ALT, {**model, "$pad": "1"}, {**_ALT, "$pad": "1"}):
             try:
                 r = fn(dict(m), info, art)
             except _RealRaised as e:
